@@ -366,6 +366,19 @@ def _vec_sort_by(e, c, a):
     return UNIT
 
 
+@model(r'Vec::<.*>::(retain|retain_mut)::<.*>', 'Vec::retain (closure decides per element; symbolic decisions fork)')
+def _vec_retain(e, c, a):
+    k, o = seq_of(a[0])
+    if k != 'seq':
+        raise Unsupported('retain on %r' % (o,))
+    keep = []
+    for cl in list(o.e):
+        if e.truth(e.call_closure(a[1], [Ref(cl)])):
+            keep.append(cl)
+    o.e[:] = keep
+    return UNIT
+
+
 @model(r'Vec::<.*>::into_boxed_slice')
 def _vec_into_boxed(e, c, a):
     return Opaque('box', cell=Cell(a[0]), rt='Box')
